@@ -121,8 +121,20 @@ bool exec_ss(Ctx &c, const Op &op) {
         if (!o) { c.skipped = true; return true; }
         std::string data = take_units<char>(c, op.b, op.c);
         if (op.fault & F_CORRUPT) corrupt_units<char>(data, op.fc);
-        char e[64]; std::snprintf(e, sizeof e, "%s,size=%zu,add=%zu", mode(o), o->model.size() / 64, data.size() / 64); note_sig(c, op, e);
-        do_append(c, op, o, data, false, false, [&] { o->p()->append(data.data(), data.size()); });
+        const char *src = nullptr;
+#ifndef SIMRT_ASAN
+        // adjacency form: the text to append starts exactly one past the end of the stream's storage (the guard bytes the simulator keeps behind
+        // the object and behind every heap block are as good a text as any). A pointer comparison that treats one-past-the-end as "inside" shows here.
+        if ((op.d & 15) == 15) {
+            simrt::BlockInfo bi; const char *raw = o->p()->raw_buffer();
+            if (simrt::heap_lookup(raw, &bi)) src = raw + bi.size;
+            else if (raw >= (const char *)o->mem && raw < (const char *)o->mem + sizeof(ST::string_stream)) src = (const char *)o->mem + sizeof(ST::string_stream);
+            if (src) data.assign(src, 1 + op.c % 32);
+        }
+#endif
+        char e[64]; std::snprintf(e, sizeof e, "%s,size=%zu,add=%zu%s", mode(o), o->model.size() / 64, data.size() / 64, src ? ",adjacent" : ""); note_sig(c, op, e);
+        const size_t len = data.size();
+        do_append(c, op, o, data, false, false, [&] { o->p()->append(src ? src : data.data(), len); });
         return true;
     }
     case SS_APPEND_AUTO: {
@@ -138,7 +150,8 @@ bool exec_ss(Ctx &c, const Op &op) {
     case SS_APPEND_CHAR: {
         SsObj *o = pick(v, op.a);
         if (!o) { c.skipped = true; return true; }
-        char ch = (char)(0x20 + op.b % 0x5F); size_t n = op.c;
+        char ch = op.b < 95 ? (char)(0x20 + op.b) : op.b == 255 ? '\0' : (char)(0x80 + (op.b - 95) % 128);      // (a byte is a byte: high bytes and NUL too)
+        size_t n = op.c;
         // top-up form: fill the stream until exactly op.d - 1 bytes of its (modelled) capacity are free, so that whatever is
         // appended next - a sign, the digits of a number, one character of a text - straddles the capacity boundary
         if (op.d) { size_t room = o->cap > o->model.size() ? o->cap - o->model.size() : 0, keep = op.d - 1; n = room >= keep ? room - keep : 0; probe(c, PR_SS_TOPPED_UP); }
@@ -149,7 +162,7 @@ bool exec_ss(Ctx &c, const Op &op) {
     case SS_SHL_CHAR: {
         SsObj *o = pick(v, op.a);
         if (!o) { c.skipped = true; return true; }
-        char ch = (char)(0x20 + op.b % 0x5F);
+        char ch = op.b < 95 ? (char)(0x20 + op.b) : op.b == 255 ? '\0' : (char)(0x80 + (op.b - 95) % 128);
         note_sig(c, op, mode(o));
         do_append(c, op, o, std::string(1, ch), false, false, [&] { *o->p() << ch; });
         return true;
